@@ -17,7 +17,12 @@ KINDS = {
     'ptr': ('char *', 'P', 8, 0, 2 ** 48), 'sb': ('struct sb', None, 4, None, None), 'char': ('char', 'c', 1, None, None),
     # item sizes that are not a power of two
     's3': ('struct s3', 'bbb', 3, None, None), 's6': ('struct s6', 'hhh', 6, None, None),
+    # character types wider than one byte: items are str of length 1, slices can be assigned from a str
+    'wchar': ('wchar_t', '<I', 4, None, None), 'c16': ('char16_t', '<H', 2, None, None),
+    'c32': ('char32_t', '<I', 4, None, None),
 }
+WIDE = ('wchar', 'c16', 'c32')
+WIDE_CP = [0x41, 0x7a, 0xe9, 0x3b1, 0x4e2d, 0xfffd, 0x20ac, 0x30]
 KNAMES = sorted(KINDS)
 
 
@@ -51,6 +56,8 @@ class Run(object):
             return struct.pack(fmt, *v)
         if kind == 'char':
             return v
+        if kind in WIDE:
+            return struct.pack(fmt, ord(v))
         if kind == 'bool':
             return struct.pack('?', bool(v))
         return struct.pack(fmt, v)
@@ -66,6 +73,9 @@ class Run(object):
             return (r % 60000 - 30000, r // 7 % 60000 - 30000, r // 49 % 60000 - 30000)
         if kind == 'char':
             return bytes([r % 256])
+        if kind in WIDE:
+            cps = WIDE_CP + ([0x1f600, 0x10ffff] if kind != 'c16' else [0xffff, 0xd7ff])
+            return chr(cps[r % len(cps)])
         if kind in ('f32', 'f64'):
             return (r % 4001 - 2000) * 0.25
         if kind == 'bool':
@@ -101,6 +111,8 @@ class Run(object):
             return 'notastruct'
         if kind in ('f32', 'f64', 'char'):
             return [1, 2]           # wrong type
+        if kind in WIDE:
+            return [[1, 2], 'ab', b'a', 65][r % 4]
         if kind == 'ptr':
             return 12345            # int is not a pointer
         if r % 3 == 0:
@@ -197,6 +209,8 @@ class Run(object):
             return struct.unpack(KINDS[kind][1], raw)
         if kind == 'char':
             return raw
+        if kind in WIDE:
+            return chr(struct.unpack(KINDS[kind][1], raw)[0])
         if kind == 'bool':
             return int(raw[0] != 0)
         return struct.unpack(KINDS[kind][1], raw)[0]
@@ -340,6 +354,10 @@ class Run(object):
         elif src == 'bytes' and kind == 'char' and fault == 'none':
             used = 'bytes'
             value = b''.join(vals)
+        elif src == 'bytes' and kind in WIDE and fault == 'none':
+            used = 'str'             # a str source: taken item by item, like any other iterable
+            value = ''.join(vals)
+            self.out.probe('slice_assign_from_str_to_wide_char_array')
         elif src == 'tuple' and boom_at is None:
             value = tuple(items)
         elif src == 'gen' or boom_at is not None:
@@ -493,8 +511,8 @@ class Run(object):
         if len(b) != v['n'] * size:
             raise Violation('C16.2', 'ffi.buffer(view) has %d bytes, expected %d' % (len(b), v['n'] * size))
         pos = r % len(b)
-        if self.allocs[v['a']]['kind'] in ('bool', 'sb', 'f32', 'f64'):
-            return          # do not fabricate invalid _Bool bytes / pad bytes / NaN payloads
+        if self.allocs[v['a']]['kind'] in ('bool', 'sb', 'f32', 'f64') + WIDE:
+            return          # do not fabricate invalid _Bool bytes / pad bytes / NaN payloads / invalid code points
         b[pos:pos + 1] = bytes([r % 256])
         self.allocs[v['a']]['model'][v['off'] + pos] = r % 256
         self.out.probe('write_through_buffer_of_view')
